@@ -180,7 +180,28 @@ def regex_crosscheck(maxlen=4):
             except sym.EngineUnsupported:
                 mrx = None
         except sym.EngineUnsupported as e:
-            skipped.append("%s (%s)" % (name, e))
+            # look-behinds the translator cannot express exactly: the engine sandwiches the language between the pattern with the
+            # look-behind alternative removed (`never`, a subset) and with the look-behind dropped (`drop`, a superset); check both
+            try:
+                lo = ext.full_language_rx(real.pattern, real.flags & ~re.UNICODE, "never")
+                hi = ext.full_language_rx(real.pattern, real.flags & ~re.UNICODE, "drop")
+            except sym.EngineUnsupported:
+                skipped.append("%s (%s)" % (name, e))
+                continue
+            lits = sorted({c for c in real.pattern if not c.isalnum() and not c.isspace()})
+            alphabet = (["a", "T", "1", "2", ":", " ", "\\"] + [c for c in lits if c not in ":\\"])[:12]
+            for L in range(0, maxlen + 1):
+                for tup in itertools.product(alphabet, repeat=L):
+                    s = "".join(tup)
+                    n += 1
+                    full = real.fullmatch(s) is not None
+                    if (_matches(lo, s) and not full) or (full and not _matches(hi, s)):
+                        bad.append("%s: sandwich broken on %r (fullmatch %s, subset %s, superset %s)" % (name, s, full, _matches(lo, s), _matches(hi, s)))
+                        break
+                else:
+                    continue
+                break
+            skipped.append("%s (%s; sandwich never <= L <= drop checked instead)" % (name, e))
             continue
         lits = sorted({c for c in real.pattern if not c.isalnum() and not c.isspace()} | set())
         alphabet = (["a", "Z", "1", "_", " ", "\n", "é"] + lits)[:14]
@@ -198,6 +219,32 @@ def regex_crosscheck(maxlen=4):
                 continue
             break
     return n, bad, skipped, sorted(pats)
+
+
+def numeral_crosscheck(maxlen=6):
+    """A4: Decimal(s) / int(s) / float(s) return exactly on the languages the engine assumes, for every string over the characters a
+    lexed numeral or a hand-written degree can contain"""
+    import decimal
+    from . import loader  # noqa: F401
+    from . import ext
+    bad = []
+    n = 0
+    alphabet = "019.+-eE"
+    for L in range(0, maxlen + 1):
+        for tup in itertools.product(alphabet, repeat=L):
+            s = "".join(tup)
+            n += 1
+            for name, conv, rx in (("Decimal", decimal.Decimal, ext.DECIMAL_OK_RX), ("int", int, ext.INT_OK_RX), ("float", float, ext.DECIMAL_OK_RX)):
+                try:
+                    conv(s)
+                    ok = True
+                except (ValueError, decimal.InvalidOperation):
+                    ok = False
+                if ok != _matches(rx, s):
+                    bad.append("%s(%r) %s in CPython" % (name, s, "returns" if ok else "raises"))
+        if len(bad) > 20:
+            break
+    return n, bad
 
 
 # ------------------------------------------------------------------------------------------------ mutants
@@ -297,6 +344,12 @@ def main(argv=None):
             print("  DISAGREE " + b)
         for s in skipped:
             print("  outside: " + s)
+        ok = ok and not bad
+    if what in ("regex", "engine+regex", "all"):
+        n, bad = numeral_crosscheck()
+        print("numeral contracts (A4): %d strings over '019.+-eE' compared for Decimal / int / float acceptance, %d disagreements" % (n, len(bad)))
+        for b in bad[:20]:
+            print("  DISAGREE " + b)
         ok = ok and not bad
     if what in ("mutants", "all"):
         good, _ = mutants(rest)
